@@ -140,6 +140,20 @@ def check(rep, F, rule='POSITION'):
                     put(cell, 'ok' if same(st, k) else 'violation', 'result rebuilt from D[k ..]' if same(st, k) else 'the result must be rebuilt from D[k ..] with k = scale - new_scale; it starts at %s' % N.show_lin(st))
                 else:
                     put(cell, 'undecided', 'slice handed to from_radix_le not recognised')
+        # the rebuilt integer carries the operand's sign: arithmetic applied to it afterwards (a carry added as an integer
+        # instead of rippled through the magnitude digits) acts on the signed value and moves negative results toward zero
+        if any(TB._plain(c).endswith('BigInt::from_radix_le') for c, a in eff):
+            o = N.norm(out)
+            coef = N.norm(o[2][0]) if _is(o, 'call') and o[2] else None
+            while coef is not None and N._callp(coef, r'convert::(From::from|Into::into)$|Clone::clone$') and coef[2]:
+                coef = N.norm(coef[2][0])
+            if coef is not None and N._callp(coef, r'ops::(Add::add|Sub::sub)$') and len(coef[2]) == 2:
+                x, y = N.norm(coef[2][0]), N.norm(coef[2][1])
+                sx = TB.show(x)
+                if 'from_radix_le(to_radix_le(' in sx and _is(y, 'const') and y != ('const', 0):
+                    put('result[%s]' % regime, 'violation', 'a constant is %s the rebuilt integer, which already carries the sign of the operand: for a negative operand the carry moves the result toward zero (the carry belongs in the magnitude digits)' % ('added to' if 'Add' in TB._plain(coef[1]) else 'subtracted from'))
+            elif coef is not None and N._callp(coef, r'Option::unwrap$|Option::expect$|Option::unwrap_unchecked$'):
+                put('result[%s]' % regime, 'ok', 'the rebuilt integer is returned as it is')
     n = 0
     for cell, (status, why) in sorted(cells.items()):
         n += 1
